@@ -25,6 +25,7 @@ CONSTANTS Base, Count,        \* fixed window b, c
           Trig,               \* "size" | "startup" | "pre" | "post"  ("pre" also stands for the time trigger)
           Limit,              \* size limit / on-start-up min_size, in units
           Sizes,              \* record sizes
+          PreArch,            \* archives found at first build: a set of subsets of the window (each member holds one old record)
           PreSizes,           \* size of the content found at first build: -1 = no file, 0 = empty file, n
           MaxRec, MaxFaults, MaxCrash, MaxRestart, MaxObst,
           MaxEncFail,         \* encoder failures (the encoder writes part of the record, then returns an error)
@@ -84,18 +85,25 @@ Snap == [act |-> [k |-> disk.act.k, d |-> [j \in 1..Len(disk.act.d) |-> disk.act
          arch |-> [x \in Idx |-> [k |-> disk.arch[x].k, d |-> [j \in 1..Len(disk.arch[x].d) |-> disk.arch[x].d[j].id]]]]
 Log(e) == IF Hist THEN Append(hist, e) ELSE hist
 
+NoPreArch == {{}}
+AnyPreArch == SUBSET Window
+\* old records in archives that exist before the first build: index i holds the record with id -(i - Base + 1)
+OldRec(i) == [id |-> 0 - (i - Base + 1), sz |-> 1]
+RECURSIVE OldStream(_, _)
+OldStream(S, i) == IF i < Base THEN <<>> ELSE (IF i \in S THEN <<OldRec(i)>> ELSE <<>>) \o OldStream(S, i - 1)
 Init ==
-  /\ \E p \in PreSizes :
+  /\ \E p \in PreSizes, S \in PreArch :
        /\ disk = [act |-> IF p < 0 THEN Absent ELSE IF p = 0 THEN File(<<>>) ELSE File(<<[id |-> 0, sz |-> p]>>),
-                  arch |-> [i \in Idx |-> Absent]]
-       /\ W = IF p > 0 THEN <<[id |-> 0, sz |-> p]>> ELSE <<>>
+                  arch |-> [i \in Idx |-> IF i \in S THEN File(<<OldRec(i)>>) ELSE Absent]]
+       /\ W = OldStream(S, Base + Count) \o (IF p > 0 THEN <<[id |-> 0, sz |-> p]>> ELSE <<>>)
        /\ refAct = IF p > 0 THEN <<[id |-> 0, sz |-> p]>> ELSE <<>>
-       /\ hist = IF Hist THEN <<[op |-> "pre", sz |-> p]>> ELSE <<>>
+       /\ hist = IF Hist THEN <<[op |-> "pre", sz |-> p, arch |-> [i \in Idx |-> i \in S]]>> ELSE <<>>
+  /\ ref = ArchPos
   /\ writer = Closed
   /\ pc = "down" /\ cur = [id |-> 0, sz |-> 0] /\ ri = 0 /\ after = "none"
   /\ used = FALSE /\ acked = {} /\ nextId = 1
   /\ fault = NoFault /\ nFaults = 0 /\ nCrash = 0 /\ nRestart = 0 /\ nObst = 0 /\ nEnc = 0 /\ nOverlap = 0
-  /\ ref = <<>> /\ rolls = 0 /\ res = "none"
+  /\ rolls = 0 /\ res = "none"
 
 \* get_writer(): open the active file if the writer is None.  `truncate` says whether this open
 \* truncates; a non-truncating open seeds len from the file's metadata.
@@ -328,7 +336,9 @@ GapFreeSuffix == Quiescent => IsSuffix(Stream, W)
 \* fault-free shadow retains (also under faults, obstacles and crashes: C08 RetainedIntact)
 NotLessThanIdeal == Quiescent => Len(Stream) >= Len(RefStream)
 \* without faults the window is exactly the shadow's
-WindowFaultFree == (Quiescent /\ Clean /\ IsWindow) =>
+\* (archives found at first build may have gaps, which the roller fills differently from the positional shadow: the
+\* exact window is claimed for instances that start from an empty window)
+WindowFaultFree == (PreArch = {{}} /\ Quiescent /\ Clean /\ IsWindow) =>
      \A j \in 0 .. Count - 1 : (j < Len(ref)) => disk.arch[Base + j] = File(ref[j + 1])
 \* an append with nothing armed and no obstacle succeeds (Recovers)
 Recovers == (pc = "idle" /\ res = "err") => (nFaults > 0 \/ nObst > 0 \/ nEnc > 0)
